@@ -5,7 +5,7 @@
     [oracle_ok] are their contracts (bounds, progress, anchoring, greedy trim pattern, last
     resort takes a byte where lex_match stops); [tables_ok] are the table obligations the
     translator re-checks on the 13 dumped tables (coq/gen/LexTables.v). *)
-From Sq Require Import Base.Bytes Lexer.Model Lexer.Tables Lexer.Proofs.
+From Sq Require Import Base.Bytes Lexer.Model Lexer.Tables Lexer.Proofs Lexer.Spec.
 
 (** Tokenising succeeds: no panic, no error, and the loops terminate. *)
 Theorem C01_total : forall om os orx tb ku,
@@ -38,6 +38,21 @@ Theorem C01_one_eof : forall om os orx tb ku,
                    Forall (fun t => t_kind t <> tb_eof tb) toks.
 Proof. exact lex_one_eof. Qed.
 Print Assumptions C01_one_eof.
+
+(** Unlexable bytes are kept, never dropped: the elements the nested loops produce are exactly
+    those of the flat specification [lex_spec] (Lexer/Spec.v) -- at every position the first
+    matcher that yields elements, else the combined regex, and where neither matches the
+    last-resort pattern's [n >= 1] bytes as one element of kind [ku] (Unlexable), after which
+    lexing continues to the end of the input -- and the tokens are their positional image. *)
+Theorem C01_refines_spec : forall om os orx tb ku,
+  oracle_ok om os orx tb -> tables_ok ku tb = true ->
+  forall s ts, lex_of om os orx tb s = Some ts ->
+  exists els,
+    lex_spec om os orx (tb_matchers tb) (tb_syntax tb) (tb_resort tb) 0 s els /\
+    p_kind (m_pat (tb_resort tb)) = ku /\
+    to_tokens (tb_eof tb) s els = Some ts.
+Proof. exact lex_refines_spec. Qed.
+Print Assumptions C01_refines_spec.
 
 (** The hypotheses are satisfiable by a concrete, non-trivial lexer (and the model then keeps
     the unlexable bytes: Proofs.ex_lex). *)
